@@ -215,7 +215,7 @@ LAW(N1_pnorm, RC, 150000, 4000000, 8, "z within 2 grid steps (1/32) of a branch 
   }
 }
 
-LAW(N2_norm_locscale, RC, 60000, 1500000, 8, "standardised argument in a tail (probability < 1e-6) or sigma != 1", 120) {
+LAW(N2_norm_locscale, RC, 60000, 1500000, 48, "standardised argument in a tail (probability < 1e-6) or sigma != 1", 120) {
   double mu = c.flag() ? static_cast<double>(c.zig(1000)) : c.real(-1e3, 1e3);
   double sigma = genRate(c);
   double zt = c.flag() ? static_cast<double>(c.zig(2560)) / 64.0 : c.real(-40, 40);
@@ -416,7 +416,7 @@ LAW(G3_qchisq, RC, 120000, 3000000, 12, "df < 2 (shape < 1), or p < 1e-5 / p > 1
   }
 }
 
-LAW(G4_gamma_signals, RC, 12000, 300000, 10, "every case (an argument outside the domain)", 120) {
+LAW(G4_gamma_signals, RC, 12000, 300000, 48, "every case (an argument outside the domain)", 120) {
   int kind = static_cast<int>(c.below(5));
   auto neg = [&]() -> double {
     switch (c.weighted({3, 2})) {
@@ -580,7 +580,7 @@ LAW(B3_qbeta, RC, 100000, 2500000, 16, "a shape < 1, or p < 1e-5 / p > 1-1e-5, o
   }
 }
 
-LAW(B4_beta_signals, RC, 12000, 300000, 10, "every case (an argument outside the domain)", 120) {
+LAW(B4_beta_signals, RC, 12000, 300000, 48, "every case (an argument outside the domain)", 120) {
   auto neg = [&]() -> double {
     switch (c.weighted({3, 2})) {
       case 0: { static const double N[] = {-1.0, -0.5, -1e-300, -1e6, -2.0, -5e-324}; return N[c.below(6)]; }
